@@ -200,6 +200,7 @@ func runItem(m *interp.Machine, ex *interp.Explorer, hpkg *ssa.Package, setupFn,
 	sampleCap := getInt(it, "sample", 400)
 	ex.StepLimit = int64(getInt(it, "step_limit", 5000000))
 	ex.MaxSplit = getInt(it, "max_split", 64)
+	ex.MaxPreempt = getInt(it, "max_preempt", 1)
 	ex.ResetItem()
 	ex.Stats = interp.SolverStats{}
 	ex.FuncsSym = map[string]bool{}
